@@ -8,6 +8,7 @@ CONSTANTS
   BugDtorOneSided = FALSE
   BugMoveNoReset = TRUE
   BugListMoveCtor = FALSE
+  WithIter = FALSE
 VIEW RView
 INVARIANTS RingOK
 CHECK_DEADLOCK FALSE
